@@ -321,3 +321,32 @@ func verif_proxyConfigTypeMap() {
 	verif.Assert(proxyConfigTypeMap[ProxyTypeXTCP] == reflect.TypeOf(XTCPProxyConfig{}), "xtcp_maps_to_its_struct")
 	verif.Assert(proxyConfigTypeMap[ProxyTypeSUDP] == reflect.TypeOf(SUDPProxyConfig{}), "sudp_maps_to_its_struct")
 }
+
+// ServerTransportConfig.Complete, the server's transport defaults (C05 "when
+// the server forces TLS ..."; C14 "dead peers are detected"): a configured
+// tls.force stays on and a trusted CA file turns it on (client certificates can
+// only be checked over TLS) - completion never turns it off; the heartbeat
+// timeout the operator configured is kept, and when none is configured the
+// watchdog is off (-1) only if tcpMux is on (the muxer's own keep-alive detects
+// dead peers) and 90 seconds otherwise; tcpMux defaults to on.
+//
+//verif:contract (*~/pkg/config/v1.ServerTransportConfig).Complete
+//verif:props C05 C14 C18
+func verif_ServerTransportConfig_Complete(c *ServerTransportConfig) {
+	force0, ca, hb0 := c.TLS.Force, c.TLS.TrustedCaFile, c.HeartbeatTimeout
+	muxSet := c.TCPMux != nil
+	muxOn := muxSet && *c.TCPMux
+	c.Complete()
+	verif.Ensures(c.TLS.Force == (force0 || ca != "") && c.TLS.TrustedCaFile == ca, "forced_tls_is_kept_and_a_trusted_ca_forces_it")
+	verif.Ensures(c.TCPMux != nil, "tcp_mux_is_decided")
+	if hb0 != 0 {
+		verif.Ensures(c.HeartbeatTimeout == hb0, "configured_heartbeat_timeout_kept")
+	} else if muxSet && muxOn {
+		verif.Ensures(c.HeartbeatTimeout == -1, "no_watchdog_by_default_with_tcp_mux")
+	} else if muxSet {
+		// (tcpMux left unset defaults to on through a freshly allocated flag;
+		// that case is not decided here: the engine does not follow a pointer
+		// to a local through the heap)
+		verif.Ensures(c.HeartbeatTimeout == 90, "watchdog_of_90s_by_default_without_tcp_mux")
+	}
+}
